@@ -103,7 +103,12 @@ def apply_real(st, op, sink=None):
     if name == 'filter':
         return st.filter(FUNCS[op[1]], **(op[2] if len(op) > 2 else {}))
     if name == 'filter_exceptions':
-        return st.filter_exceptions(_exc(op[1]), _exc(op[2]))
+        d, k = _exc(op[1]), _exc(op[2])
+        if len(op) > 3 and op[3] == 'as-lists':
+            # the documentation allows lists ("None (the default) or () or []")
+            d = list(d) if isinstance(d, tuple) else d
+            k = list(k) if isinstance(k, tuple) else k
+        return st.filter_exceptions(d, k)
     if name == 'peek':
         return st.peek(print_func=(sink.append if sink is not None else (lambda s: None)), interval=op[1])
     if name == 'head':
@@ -246,6 +251,7 @@ def alphabet(n):
         ['filter', 'p_even'], ['filter', 'p_fail7'], ['filter', 'p_mod3_kw', {'r': 1}],
         ['filter_exceptions', 'Boom', None], ['filter_exceptions', None, 'Boom'], ['filter_exceptions', 'Exception', 'Boom'],
         ['filter_exceptions', None, None], ['filter_exceptions', ['ValueError', 'Boom'], 'LookupError'],
+        ['filter_exceptions', [], ['KeyError'], 'as-lists'], ['filter_exceptions', ['ValueError', 'Boom'], [], 'as-lists'],
         ['peek', 1],
         ['head', 1], ['head', 2], ['head', max(1, n)], ['head', big],
         ['tail', 1], ['tail', 2], ['tail', big],
